@@ -686,12 +686,19 @@ start:
 	}
 
 	processPhis := func(b *ir.BasicBlock, i int, s state) state {
+		// The phis of a block are evaluated in parallel: an operand may be
+		// another phi of the same block, in which case it denotes that
+		// phi's previous value. Read all operands before updating any phi.
+		var vals []ValueNilness
 		for _, instr := range b.Instrs {
 			if instr, ok := instr.(*ir.Phi); ok {
-				s.set(instr, s.get(instr.Edges[i]))
+				vals = append(vals, s.get(instr.Edges[i]))
 			} else {
 				break
 			}
+		}
+		for k, instr := range b.Instrs[:len(vals)] {
+			s.set(instr.(*ir.Phi), vals[k])
 		}
 		return s
 	}
